@@ -11,5 +11,6 @@ cargo test --offline --no-fail-fast 2>&1 | grep -E "^test result|FAILED|failed|e
 echo "== demo with change"
 cargo test --offline --test demo_$id 2>&1 | grep -E "^test result|^test .*FAILED|error\[" | head -8
 echo "== demo without change"
-git stash push -q -- src && cargo test --offline --test demo_$id 2>&1 | grep -E "^test result|^test .*FAILED|error\[" | head -8; git stash pop -q
+# (no `git stash`: the stash is shared by every worktree of /repo, concurrent users pop each other's entries)
+git diff -- src > .seed.patch && git apply -R .seed.patch && cargo test --offline --test demo_$id 2>&1 | grep -E "^test result|^test .*FAILED|error\[" | head -8; git apply .seed.patch; rm -f .seed.patch
 git diff --stat -- src
